@@ -70,6 +70,7 @@ func buildDesc(inp M) (in []byte, data []byte) {
 }
 
 var reusedDescriptor signature.EFIVariableAuthentication2
+var reusedDescriptorPrev = *signature.NewEFIVariableAuthentication2()
 
 func runDesc(sc M) {
 	id := sc["sc"]
@@ -153,6 +154,19 @@ func runDesc(sc M) {
 			d.Marshal(&w)
 			if !bytes.Equal(w.Bytes(), in[:consumed]) {
 				fail("%s: encoding the decoded value gives %d bytes, the %d consumed bytes differ", tag, w.Len(), consumed)
+			}
+			// encoding appends: into a buffer that already holds the 4 attribute bytes of a variable file and an earlier descriptor, the
+			// bytes in front stay what they were and the appended bytes are the consumed bytes
+			{
+				var pre bytes.Buffer
+				pre.Write([]byte{0x27, 0, 0, 0})
+				reusedDescriptorPrev.Marshal(&pre)
+				front := append([]byte{}, pre.Bytes()...)
+				d.Marshal(&pre)
+				if !bytes.Equal(pre.Bytes()[:len(front)], front) || !bytes.Equal(pre.Bytes()[len(front):], in[:consumed]) {
+					fail("%s: Marshal into a buffer that already holds %d bytes changed them or appended something else than the consumed bytes", tag, len(front))
+				}
+				reusedDescriptorPrev = *d
 			}
 			// every spelling of the encoder gives the same bytes: Marshal, the package-level writers, and the certificate part on its own
 			var w3, w4 bytes.Buffer
